@@ -24,6 +24,7 @@ WORK = f"{VERIF}/.work"
 
 sys.path.insert(0, f"{VERIF}/tools")
 from checks_table import CHECKS  # noqa: E402
+from san_stage import run_stages  # noqa: E402
 
 
 def log(msg):
@@ -152,7 +153,9 @@ def main():
             os.remove(f)
         except OSError:
             pass
-    with ThreadPoolExecutor(max_workers=par) as ex:
+    if "--stage-only" in sys.argv:
+        nshards = 0
+    with ThreadPoolExecutor(max_workers=max(par, 1)) as ex:
         futs = [ex.submit(run_shard, check_id, spec, tier, seed, i, nshards,
                           budget) for i in range(nshards)]
         results = [f.result() for f in futs]
@@ -203,6 +206,35 @@ def main():
         for k, v in rep.get("notes", {}).items():
             notes.setdefault(k, v)
 
+    # sanitizer stages (Miri / ThreadSanitizer), thorough tier only
+    stage_summaries = []
+    for st, out in run_stages(check_id, spec, tier, seed,
+                              f"{WORK}/{check_id}/s{seed}", log):
+        for v in out["violations"]:
+            if not any(x["signature"] == v["signature"] for x in violations):
+                violations.append(v)
+        inconclusive += out["inconclusive"]
+        stage_summaries.append({
+            "tool": st["kind"], "shards": st["shards"],
+            "shards_completed": out.get("ok_shards", 0),
+            "budget_s": st["budget_s"], "build_s": out.get("build_s"),
+            "wall_s": out.get("wall_s"),
+            "counters": out["counters"],
+            "distinct_schedules_or_cases": len(
+                out["distinct"].get("nontrivial", ())),
+            "sanitizer_reports": out["reports"][:20],
+            "monitor_violations": [v["signature"]
+                                   for v in out["violations"]],
+            "sample": out["samples"][:1],
+        })
+        log(f"{check_id}: stage {st['kind']}: shards "
+            f"{out.get('ok_shards', 0)}/{st['shards']} histories="
+            f"{out['counters'].get('histories', out['counters'].get('evaluations', 0))} "
+            f"reports={len(out['reports'])} wall={out.get('wall_s')}s")
+    if "--stage-only" in sys.argv:
+        log(json.dumps(stage_summaries, indent=1, default=str)[:3000])
+        return 1 if violations else 0
+
     post = spec.get("post")
     if post:
         post(check_id, tier, seed, counters, distinct, samples, violations,
@@ -241,6 +273,8 @@ def main():
         "notes": notes,
         "build_s": round(build_s, 1),
     }
+    if stage_summaries:
+        coverage["sanitizer_stages"] = stage_summaries
     for k in spec.get("distinct_lists", []):
         coverage[k] = sorted(distinct.get(k, ()))[:200]
     evidence = {
